@@ -2,8 +2,11 @@
 history, sequential and with overlapping callers; five named deviations - >= for >, no carry, restart
 seeding only the time, nano >=, no mutex - each violate the contract), plans replayed on real goroutines
 against snowflake.HardNode with the clock hook as a rendez-vous, seeded clock walks / bursts / restarts /
-free-running goroutines on HardNode, MonoNode and the nano generators; every returned id validated by
-IdGen_Trace (contract layer only)."""
+free-running goroutines and cold-start rounds on HardNode, MonoNode and the nano generators, one caller using
+two nodes in turns, constructors with node numbers at and beyond the node width, layouts installed through the
+public Setup as well as through the hook; every returned id validated by IdGen_Trace (contract layer only).
+Every history runs under a watchdog: a call that never returns, a refused constructor and a panic are
+events of their own kind that the contract rejects (never exit 2)."""
 
 
 def run(ctx):
@@ -36,9 +39,9 @@ def run(ctx):
     out = ctx.harness(binary, ["-plans", pdir, "-out", seqf, "-conc", concf, "-seed", ctx.seed,
                          "-hist", ctx.q(300, 4000), "-burst", ctx.q(4, 40), "-batch", ctx.q(3, 30),
                          "-mono", ctx.q(3, 12), "-monocalls", ctx.q(9000, 20000),
-                         "-nano", ctx.q(40, 600), "-nconc", ctx.q(16, 96), "-perg", ctx.q(150, 200),
-                         "-pair", ctx.q(40, 500), "-bad", ctx.q(16, 64), "-cold", ctx.q(250, 2500),
-                         "-coldms", ctx.q(2500, 20000)],
+                         "-nano", ctx.q(40, 600), "-nconc", ctx.q(16, 96), "-perg", ctx.q(120, 200),
+                         "-pair", ctx.q(40, 500), "-bad", ctx.q(16, 64), "-cold", ctx.q(200, 2500),
+                         "-coldms", ctx.q(2000, 20000)],
                 traces=[seqf, concf])
     seq = ctx.load_traces(seqf)
     conc = ctx.load_traces(concf)
@@ -71,6 +74,10 @@ def run(ctx):
         "logging min(old,new) when a change begins and new when it is complete; nano: GenID (real clock), "
         "GenIDByTS and mixed, generator starting at 0 / now / ahead of the clock; overlap statistics in "
         "coverage.free_running_overlap",
+        "cold-start rounds: a fresh generator first touched by 2-4 goroutines released together, 3-7 calls each; "
+        "rounds are run until enough of them really overlapped (or the time budget ends), only those are kept",
+        "epochs stay within 1678..2262 (NewNode converts the epoch through int64 nanoseconds; harness flag "
+        "-farepochs adds epochs outside, which the unchanged tree does not survive - reported, not enabled)",
         "MonoNode reads the runtime's monotonic clock and cannot be given a trajectory: driven with tight "
         "loops (>4096 calls per ms, spin path) and concurrent callers only",
     ]
